@@ -74,6 +74,9 @@ pub trait World: 'static {
 
     /// Tier accounting (always on plain slices: the tier is a function of the bytes).
     fn tier(is_f64: bool, a: &[u8], b: &[u8], e: i32) -> Tier;
+    /// For a request that reaches the big-integer tier: the decimal exponent relative
+    /// to the parsed digits (coverage accounting only).
+    fn slow_exponent(is_f64: bool, a: &[u8], b: &[u8], e: i32) -> i32;
 
     fn set_poison(seed: Option<u64>);
     fn poison_words() -> u64;
@@ -235,6 +238,14 @@ macro_rules! world {
                 } else {
                     go::<f32>(a, b, e)
                 }
+            }
+
+            fn slow_exponent(is_f64: bool, a: &[u8], b: &[u8], e: i32) -> i32 {
+                let num = $krate::parse::parse_number_verif(a.iter(), b.iter(), e);
+                let sci = $krate::slow::scientific_exponent(&num);
+                let max = if is_f64 { <f64 as $krate::Float>::MAX_DIGITS } else { <f32 as $krate::Float>::MAX_DIGITS };
+                let (_, digits) = $krate::slow::parse_mantissa(a.iter(), b.iter(), max);
+                sci + 1 - digits as i32
             }
 
             fn set_poison(seed: Option<u64>) {
